@@ -81,12 +81,25 @@ theorem nok_all_wait {l : List Dep} (h : ∀ d ∈ l, d.cur = .wait) : nok l = l
 /-- local (one record) part of the invariant; depends only on five fields. -/
 structure JLoc' (state : JS) (pc : PC) (deps : List Dep) (unsat : Int) (launches : Nat) : Prop where
   none_unsched : pc = .none → state = .unscheduled
-  unsched : state = .unscheduled → (pc = .none ∨ pc = .created) ∧ (∀ d ∈ deps, d.cur = .wait) ∧ launches = 0
+  unsched : state = .unscheduled → (pc = .none ∨ pc = .created) ∧ (∀ d ∈ deps, d.cur = .wait) ∧ launches = 0 ∧ unsat = 0
   done_pc : state = .done → pc ≠ .lockEnter ∧ pc ≠ .lockExitAbort ∧ pc ≠ .lockExitRun ∧ pc ≠ .codeWait
   counter : state ≠ .unscheduled → unsat = (nok deps : Int)
   ready_ok : (state = .ready ∨ pc = .lockEnter) → ∀ d ∈ deps, ∀ o, d.origin = .job o → d.cur = .ok
 
 def JLoc (jb : Job) : Prop := JLoc' jb.state jb.pc jb.deps jb.unsat jb.launches
+
+/-- the part of the step relation used to transport the global invariant. -/
+structure JBase (a b : Job) : Prop where
+  done : a.state = .done → b.state = .done
+  origins : b.deps.map (·.origin) = a.deps.map (·.origin)
+  act : a.state ≠ .unscheduled → b.state ≠ .unscheduled
+
+theorem JBase.refl (a : Job) : JBase a a := by
+  constructor <;> simp
+
+theorem JBase.len {a b : Job} (h : JBase a b) : b.deps.length = a.deps.length := by
+  have := congrArg List.length h.origins
+  simpa using this
 
 /-- what one callback may do to one record. -/
 structure JStep (a b : Job) : Prop where
@@ -99,9 +112,9 @@ structure JStep (a b : Job) : Prop where
 theorem JStep.refl (a : Job) : JStep a a := by
   constructor <;> simp
 
-theorem JStep.len {a b : Job} (h : JStep a b) : b.deps.length = a.deps.length := by
-  have := congrArg List.length h.origins
-  simpa using this
+theorem JStep.base {a b : Job} (h : JStep a b) : JBase a b := ⟨h.done, h.origins, h.act⟩
+
+theorem JStep.len {a b : Job} (h : JStep a b) : b.deps.length = a.deps.length := h.base.len
 
 /-- a record change that keeps `pc` and `launches`. -/
 structure JKeep (a b : Job) : Prop where
@@ -208,21 +221,31 @@ theorem JTr.updJob {jobs : Nat → Job} {j : Nat} {jb' : Job} (h : JStep (jobs j
   · rename_i e; subst e; exact h
   · exact JStep.refl _
 
-theorem PairOK.mono {jobs jobs' : Nat → Job} (h : JTr jobs jobs') {p : Nat × Nat} (hp : PairOK jobs p) : PairOK jobs' p :=
+/-- pointwise base relation on job tables. -/
+def JBTr (jobs jobs' : Nat → Job) : Prop := ∀ i, JBase (jobs i) (jobs' i)
+
+theorem JBTr.updJob {jobs : Nat → Job} {j : Nat} {jb' : Job} (h : JBase (jobs j) jb') : JBTr jobs (upd jobs j jb') := by
+  intro i; unfold Sched.upd; split
+  · rename_i e; subst e; exact h
+  · exact JBase.refl _
+
+theorem PairOK.mono {jobs jobs' : Nat → Job} (h : JBTr jobs jobs') {p : Nat × Nat} (hp : PairOK jobs p) : PairOK jobs' p :=
   ⟨(h p.1).act hp.1, by rw [(h p.1).len]; exact hp.2⟩
 
 /-- replacing one record. -/
 theorem Inv'.updJob {n jobs ready jd td} (h : Inv' n jobs ready jd td) (j : Nat) (jb' : Job)
-    (hloc : JLoc jb') (hst : JStep (jobs j) jb')
+    (hloc : JLoc jb') (hst : JBase (jobs j) jb') (hfresh : n ≤ j → jb'.pc = .none)
     (hstart : Cb.start j ∈ ready → jb'.state = .unscheduled ∧ jb'.pc = .created)
     (hK : ∀ d ∈ jb'.deps, ∀ o, d.origin = .job o → d.cur = .ok → (upd jobs j jb' o).state = .done) :
     Inv' n (upd jobs j jb') ready jd td := by
-  have htr : JTr jobs (Sched.upd jobs j jb') := JTr.updJob hst
+  have htr : JBTr jobs (Sched.upd jobs j jb') := JBTr.updJob hst
   refine ⟨?_, ?_, ?_, ?_, h.starts, ?_, ?_⟩
   · intro i; unfold Sched.upd; split
     · exact hloc
     · exact h.loc i
-  · intro i hi; exact (htr i).pcnone (h.fresh i hi)
+  · intro i hi; unfold Sched.upd; split
+    · rename_i e; subst e; exact hfresh hi
+    · exact h.fresh i hi
   · intro i d hd o ho hc
     by_cases e : i = j
     · subst e; simp only [Sched.upd, if_true] at hd; exact hK d hd o ho hc
@@ -244,11 +267,11 @@ theorem Inv'.updJob {n jobs ready jd td} (h : Inv' n jobs ready jd td) (j : Nat)
   · intro o p hp; exact PairOK.mono htr (h.tdeps o p hp)
 
 theorem hK_same {n jobs ready jd td} (h : Inv' n jobs ready jd td) (j : Nat) (jb' : Job)
-    (hst : JStep (jobs j) jb') (hdeps : jb'.deps = (jobs j).deps) :
+    (hst : JBase (jobs j) jb') (hdeps : jb'.deps = (jobs j).deps) :
     ∀ d ∈ jb'.deps, ∀ o, d.origin = .job o → d.cur = .ok → (upd jobs j jb' o).state = .done := by
   intro d hd o ho hc
   rw [hdeps] at hd
-  exact (JTr.updJob hst o).done (h.okdone j d hd o ho hc)
+  exact (JBTr.updJob hst o).done (h.okdone j d hd o ho hc)
 
 /-- appending callbacks that are not `start`. -/
 theorem Inv'.addReady {n jobs ready jd td} (h : Inv' n jobs ready jd td) (cbs : List Cb)
@@ -323,14 +346,14 @@ theorem Inv.put {s : St} (h : Inv s) (j : Nat) (jb' : Job) (cbs : List Cb) (ths 
     (hK : ∀ d ∈ jb'.deps, ∀ o, d.origin = .job o → d.cur = .ok → (upd s.jobs j jb' o).state = .done)
     (hcbs : ∀ cb ∈ cbs, CbOK (upd s.jobs j jb') cb ∧ notStart cb) :
     Inv (s.put j jb' cbs ths) :=
-  (Inv'.updJob h j jb' hloc hst hstart hK).addReady cbs hcbs
+  (Inv'.updJob h j jb' hloc hst.base (fun hn => hst.pcnone (h.fresh j hn)) hstart hK).addReady cbs hcbs
 
 /-- `St.put` on an active job whose `deps` are unchanged. -/
 theorem Inv.putAct {s : St} (h : Inv s) (j : Nat) (jb' : Job) (cbs : List Cb) (ths : List (TK × Nat))
     (hact : act (s.jobs j)) (hloc : JLoc jb') (hst : JStep (s.jobs j) jb') (hdeps : jb'.deps = (s.jobs j).deps)
     (hcbs : ∀ cb ∈ cbs, CbOK (upd s.jobs j jb') cb ∧ notStart cb) :
     Inv (s.put j jb' cbs ths) :=
-  h.put j jb' cbs ths hloc hst (fun hm => absurd hm (h.start_not_mem hact)) (hK_same h j jb' hst hdeps) hcbs
+  h.put j jb' cbs ths hloc hst (fun hm => absurd hm (h.start_not_mem hact)) (hK_same h j jb' hst.base hdeps) hcbs
 
 theorem upd_same {α : Type} (f : Nat → α) (j : Nat) (v : α) : upd f j v j = v := by simp [Sched.upd]
 
@@ -371,5 +394,698 @@ theorem Inv.check {s : St} (fl : Flags) (hfl : fl.readyGuarded = true) (h : Inv 
         rw [upd_same]; exact hkeep.act hact
       · simp at hcb
   · rw [hjobs]; exact JKTr.updJob hkeep
+
+/-! ### record updates -/
+
+/-- changing `pc` of an active record. -/
+theorem JLoc'.setPc {st pc deps u l} (h : JLoc' st pc deps u l) (pc' : PC) (hact : st ≠ .unscheduled)
+    (h0 : pc' ≠ .none)
+    (h1 : pc' = .lockEnter → st = .ready)
+    (h2 : st = .done → pc' ≠ .lockEnter ∧ pc' ≠ .lockExitAbort ∧ pc' ≠ .lockExitRun ∧ pc' ≠ .codeWait) :
+    JLoc' st pc' deps u l := by
+  obtain ⟨a, b, c, d, e⟩ := h
+  constructor <;> grind
+
+/-- changing `state` of an active record. -/
+theorem JLoc'.setState {st pc deps u l} (h : JLoc' st pc deps u l) (st' : JS) (hact : st ≠ .unscheduled)
+    (h0 : st' ≠ .unscheduled)
+    (h1 : st' = .ready → st = .ready ∨ u = 0)
+    (h2 : st' = .done → pc ≠ .lockEnter ∧ pc ≠ .lockExitAbort ∧ pc ≠ .lockExitRun ∧ pc ≠ .codeWait) :
+    JLoc' st' pc deps u l := by
+  obtain ⟨a, b, c, d, e⟩ := h
+  constructor
+  · grind
+  · grind
+  · grind
+  · grind
+  · intro hp x hx o ho
+    rcases hp with hp | hp
+    · rcases h1 hp with h1 | h1
+      · exact e (Or.inl h1) x hx o ho
+      · have := d hact
+        exact nok_zero (by omega) x hx
+    · exact e (Or.inr hp) x hx o ho
+
+theorem Inv.act_pc {s : St} (h : Inv s) {j : Nat} (hact : act (s.jobs j)) : (s.jobs j).pc ≠ .none :=
+  fun e => hact ((h.loc j).none_unsched e)
+
+/-- `St.put` of a record with the same five fields (only `held`, `event`, `sleeping`, … change). -/
+theorem Inv.putSame {s : St} (h : Inv s) (j : Nat) (jb' : Job) (ths : List (TK × Nat))
+    (hs : jb'.state = (s.jobs j).state) (hp : jb'.pc = (s.jobs j).pc) (hd : jb'.deps = (s.jobs j).deps)
+    (hu : jb'.unsat = (s.jobs j).unsat) (hl : jb'.launches = (s.jobs j).launches) :
+    Inv (s.put j jb' [] ths) ∧ JKTr s.jobs (s.put j jb' [] ths).jobs := by
+  have hk : JKeep (s.jobs j) jb' := ⟨fun e => hs.trans e, by rw [hd], fun e => by rw [hs]; exact e, hp, hl⟩
+  refine ⟨?_, JKTr.updJob hk⟩
+  apply h.put j jb' [] ths _ hk.step _ (hK_same h j jb' hk.step.base hd) (by simp)
+  · show JLoc' _ _ _ _ _
+    rw [hs, hp, hd, hu, hl]; exact h.loc j
+  · intro hm; rw [hs, hp]; exact h.cbs _ hm
+
+/-- `St.put` of an active record where only `pc` (and fields outside the invariant) changes. -/
+theorem Inv.putPc {s : St} (h : Inv s) (j : Nat) (jb' : Job) (ths : List (TK × Nat)) (hact : act (s.jobs j))
+    (hs : jb'.state = (s.jobs j).state) (hd : jb'.deps = (s.jobs j).deps)
+    (hu : jb'.unsat = (s.jobs j).unsat) (hl : jb'.launches = (s.jobs j).launches)
+    (h0 : jb'.pc ≠ .none)
+    (h1 : jb'.pc = .lockEnter → (s.jobs j).state = .ready)
+    (h2 : (s.jobs j).state = .done → jb'.pc ≠ .lockEnter ∧ jb'.pc ≠ .lockExitAbort ∧ jb'.pc ≠ .lockExitRun ∧ jb'.pc ≠ .codeWait) :
+    Inv (s.put j jb' [] ths) ∧ JTr s.jobs (s.put j jb' [] ths).jobs := by
+  have hk : JStep (s.jobs j) jb' :=
+    ⟨fun e => hs.trans e, by rw [hd], fun e => absurd e (h.act_pc hact), fun e => by rw [hs]; exact e, fun e => by omega⟩
+  refine ⟨?_, JTr.updJob hk⟩
+  apply h.putAct j jb' [] ths hact _ hk hd (by simp)
+  show JLoc' _ _ _ _ _
+  rw [hs, hd, hu, hl]; exact (h.loc j).setPc _ hact h0 h1 h2
+
+theorem Inv.finish {s : St} (h : Inv s) (j : Nat) (hact : act (s.jobs j)) :
+    Inv (s.finish j) ∧ JTr s.jobs (s.finish j).jobs := by
+  unfold St.finish
+  simp only
+  split
+  · exact Inv.putPc (s := { s with failed := s.failed ++ [(s.jobs j).ident] }) h j _ _ hact rfl rfl rfl rfl
+      (by simp) (by simp) (by simp)
+  · exact h.putPc j _ _ hact rfl rfl rfl rfl (by simp) (by simp) (by simp)
+
+theorem Inv.loopHead {s : St} (h : Inv s) (j : Nat) (hact : act (s.jobs j)) :
+    Inv (s.loopHead j) ∧ JTr s.jobs (s.loopHead j).jobs := by
+  unfold St.loopHead
+  simp only
+  split
+  · exact h.finish j hact
+  · split
+    · split
+      · rename_i hr
+        exact h.putPc j _ _ hact rfl rfl rfl rfl (by simp) (fun _ => hr) (by simp [hr])
+      · exact h.putPc j _ _ hact rfl rfl rfl rfl (by simp) (by simp) (by simp)
+    · exact h.putPc j _ _ hact rfl rfl rfl rfl (by simp) (by simp) (by simp)
+
+theorem upd_upd {α : Type} (f : Nat → α) (j : Nat) (a b : α) : upd (upd f j a) j b = upd f j b := by
+  funext i; simp only [Sched.upd]; split <;> rfl
+
+theorem Inv.registerDeps (fl : Flags) (hfl : fl.readyGuarded = true) (j : Nat) :
+    ∀ (k d : Nat) (s : St), Inv s → act (s.jobs j) → d + k = (s.jobs j).deps.length →
+      Inv (St.registerDeps fl s j k d) ∧ JKTr s.jobs (St.registerDeps fl s j k d).jobs := by
+  intro k
+  induction k with
+  | zero => intro d s h _ _; exact ⟨h, JKTr.refl _⟩
+  | succ k ih =>
+    intro d s h hact hlen
+    have hd : d < (s.jobs j).deps.length := by omega
+    have hp : PairOK s.jobs (j, d) := ⟨hact, hd⟩
+    simp only [St.registerDeps]
+    have key : ∀ s1 : St, Inv s1 → s1.jobs = s.jobs →
+        Inv (St.registerDeps fl (s1.check fl j d) j k (d + 1)) ∧
+        JKTr s.jobs (St.registerDeps fl (s1.check fl j d) j k (d + 1)).jobs := by
+      intro s1 h1 hj
+      have hact1 : act (s1.jobs j) := by rw [hj]; exact hact
+      have hd1 : d < (s1.jobs j).deps.length := by rw [hj]; exact hd
+      obtain ⟨h2, t2⟩ := h1.check fl hfl j d hact1 hd1
+      have hact2 : act ((s1.check fl j d).jobs j) := (t2 j).act hact1
+      have hlen2 : d + 1 + k = ((s1.check fl j d).jobs j).deps.length := by
+        have := (t2 j).step.len; rw [this, hj]; omega
+      obtain ⟨h3, t3⟩ := ih (d + 1) _ h2 hact2 hlen2
+      refine ⟨h3, ?_⟩
+      rw [← hj]; exact t2.trans t3
+    split
+    · exact key _ (Inv'.addJobDep h _ (j, d) hp) rfl
+    · exact key _ (Inv'.addTokDep h _ (j, d) hp) rfl
+
+theorem Inv.releaseAll (j : Nat) : ∀ (ds : List Nat) (s : St), Inv s →
+    Inv (s.releaseAll j ds) ∧ JKTr s.jobs (s.releaseAll j ds).jobs := by
+  intro ds
+  induction ds with
+  | nil => intro s h; exact h.putSame j _ _ rfl rfl rfl rfl rfl
+  | cons d ds ih =>
+    intro s h
+    simp only [St.releaseAll]
+    split
+    · exact ih s h
+    · rename_i t c _
+      have h1 : Inv { s with avail := upd s.avail t (s.avail t + c),
+                             ready := s.ready ++ (s.tokDeps t).map (fun (p : Nat × Nat) => Cb.notifyCheck p.1 p.2) } := by
+        apply Inv'.addReady h
+        intro cb hcb
+        obtain ⟨p, hp, rfl⟩ := List.mem_map.mp hcb
+        exact ⟨h.tdeps t p hp, trivial⟩
+      exact ih _ h1
+
+theorem Inv.acquireAll (j : Nat) : ∀ (k d : Nat) (s : St), Inv s →
+    Inv (s.acquireAll j k d).1 ∧ JKTr s.jobs (s.acquireAll j k d).1.jobs ∧
+    ∀ d', (s.acquireAll j k d).2 = some d' → d' < d + k := by
+  intro k
+  induction k with
+  | zero => intro d s h; exact ⟨h, JKTr.refl _, by simp [St.acquireAll]⟩
+  | succ k ih =>
+    intro d s h
+    simp only [St.acquireAll]
+    split
+    · obtain ⟨h1, t1⟩ := h.putSame j { (s.jobs j) with held := (s.jobs j).held ++ [d] } [] rfl rfl rfl rfl rfl
+      obtain ⟨h2, t2, b2⟩ := ih (d + 1) _ h1
+      exact ⟨h2, t1.trans t2, fun d' e => by have := b2 d' e; omega⟩
+    · rename_i t c _
+      split
+      · exact ⟨h, JKTr.refl _, fun d' e => by simp at e; omega⟩
+      · obtain ⟨h1, t1⟩ := Inv.putSame (s := { s with avail := upd s.avail t (s.avail t - c) }) h j
+          { (s.jobs j) with held := (s.jobs j).held ++ [d] } [] rfl rfl rfl rfl rfl
+        obtain ⟨h2, t2, b2⟩ := ih (d + 1) _ h1
+        exact ⟨h2, t1.trans t2, fun d' e => by have := b2 d' e; omega⟩
+
+theorem finish_jobs (s : St) (j : Nat) :
+    (s.finish j).jobs = upd s.jobs j { (s.jobs j) with pc := .doneHandler } := by
+  unfold St.finish; simp only; split <;> rfl
+theorem finish_view (s : St) (j : Nat) :
+    (s.finish j).n = s.n ∧ (s.finish j).ready = s.ready ++ [] ∧ (s.finish j).jobDeps = s.jobDeps ∧
+    (s.finish j).tokDeps = s.tokDeps := by
+  unfold St.finish; simp only; split <;> exact ⟨rfl, rfl, rfl, rfl⟩
+
+theorem JLoc.eventSet {jb : Job} (h : JLoc jb) : JLoc (eventSet jb).1 := by
+  unfold JLoc; simp only [eventSet_state, eventSet_pc, eventSet_deps, eventSet_unsat, eventSet_launches]; exact h
+
+theorem JKeep.eventSet (jb : Job) : JKeep jb (eventSet jb).1 := by
+  constructor <;> simp
+
+theorem Inv.resume (fl : Flags) (hfl : fl.readyGuarded = true) {s : St} (h : Inv s) (j : Nat) :
+    Inv (s.resume fl j) ∧ JTr s.jobs (s.resume fl j).jobs := by
+  simp only [St.resume]
+  split
+  · -- lockEnter
+    rename_i hpc
+    obtain ⟨h1, t1, b1⟩ := h.acquireAll j (s.jobs j).deps.length 0 s
+    rcases hacq : s.acquireAll j (s.jobs j).deps.length 0 with ⟨s1, r⟩
+    rw [hacq] at h1 t1 b1
+    simp only at h1 t1 b1 ⊢
+    have hpc1 : (s1.jobs j).pc = .lockEnter := (t1 j).pc.trans hpc
+    have hact : act (s.jobs j) := by
+      intro e; have := ((h.loc j).unsched e).1; rw [hpc] at this; simp at this
+    have hact1 : act (s1.jobs j) := (t1 j).act hact
+    cases r with
+    | some d =>
+      simp only
+      have hd : d < (s1.jobs j).deps.length := by
+        have := b1 d rfl; rw [(t1 j).step.len]; omega
+      obtain ⟨h2, t2⟩ := h1.check fl hfl j d hact1 hd
+      have hpc2 : ((s1.check fl j d).jobs j).pc = .lockEnter := (t2 j).pc.trans hpc1
+      have hact2 : act ((s1.check fl j d).jobs j) := (t2 j).act hact1
+      have hnd : ((s1.check fl j d).jobs j).state ≠ .done := by
+        intro e; have := ((h2.loc j).done_pc e).1; exact this hpc2
+      obtain ⟨h3, t3⟩ := h2.putPc j { ((s1.check fl j d).jobs j) with pc := .lockExitAbort } [(.lockExit, j)] hact2
+        rfl rfl rfl rfl (by simp) (by simp) (fun e => absurd e hnd)
+      exact ⟨h3, (t1.trans t2).then t3⟩
+    | none =>
+      simp only
+      have hnd : (s1.jobs j).state ≠ .done := by
+        intro e; have := ((h1.loc j).done_pc e).1; exact this hpc1
+      have hk : JStep (s1.jobs j) { (s1.jobs j) with launches := (s1.jobs j).launches + 1, state := .running, pc := .lockExitRun } :=
+        ⟨fun e => absurd e hnd, rfl, fun e => by rw [hpc1] at e; simp at e, fun _ => by simp, fun _ => hpc1⟩
+      refine ⟨?_, t1.then (JTr.updJob hk)⟩
+      apply h1.putAct j _ [] _ hact1 _ hk rfl (by simp)
+      have hc := (h1.loc j).counter hact1
+      constructor <;> simp [hc]
+  · -- lockExitAbort
+    rename_i hpc
+    have hact : act (s.jobs j) := by
+      intro e; have := ((h.loc j).unsched e).1; rw [hpc] at this; simp at this
+    obtain ⟨h1, t1⟩ := h.releaseAll j (s.jobs j).held s
+    generalize s.releaseAll j (s.jobs j).held = s1 at h1 t1 ⊢
+    have hpc1 : (s1.jobs j).pc = .lockExitAbort := (t1 j).pc.trans hpc
+    have hact1 : act (s1.jobs j) := (t1 j).act hact
+    have hnd : (s1.jobs j).state ≠ .done := by
+      intro e; have := ((h1.loc j).done_pc e).2.1; exact this hpc1
+    have key : ∀ (jb' : Job) (w : Bool), JLoc jb' → JKeep (s1.jobs j) jb' → jb'.deps = (s1.jobs j).deps →
+        Inv ((s1.put j jb' (if w then [.wake j] else [])).loopHead j) ∧
+        JTr s.jobs ((s1.put j jb' (if w then [.wake j] else [])).loopHead j).jobs := by
+      intro jb' w hloc hk hdeps
+      have h2 : Inv (s1.put j jb' (if w then [.wake j] else [])) := by
+        apply h1.putAct j jb' _ _ hact1 hloc hk.step hdeps
+        intro cb hcb
+        split at hcb
+        · simp at hcb; subst hcb
+          refine ⟨?_, trivial⟩
+          show act (upd s1.jobs j jb' j)
+          rw [upd_same]; exact hk.act hact1
+        · simp at hcb
+      have t2 : JKTr s1.jobs (s1.put j jb' (if w then [.wake j] else [])).jobs := JKTr.updJob hk
+      obtain ⟨h3, t3⟩ := h2.loopHead j ((t2 j).act hact1)
+      exact ⟨h3, (t1.trans t2).then t3⟩
+    split
+    · rename_i hc
+      have := key (eventSet { (s1.jobs j) with state := .ready }).1 (eventSet { (s1.jobs j) with state := .ready }).2
+      apply this
+      · apply JLoc.eventSet
+        exact (h1.loc j).setState .ready hact1 (by simp) (fun _ => Or.inr hc.2) (by simp)
+      · exact JKeep.trans (show JKeep (s1.jobs j) { (s1.jobs j) with state := .ready } from
+          ⟨fun e => absurd e hnd, rfl, fun _ => by simp, rfl, rfl⟩) (JKeep.eventSet _)
+      · simp
+    · apply key { (s1.jobs j) with state := .waiting } false
+      · exact (h1.loc j).setState .waiting hact1 (by simp) (by simp) (by simp)
+      · exact ⟨fun e => absurd e hnd, rfl, fun _ => by simp, rfl, rfl⟩
+      · rfl
+  · -- lockExitRun
+    rename_i hpc
+    have hact : act (s.jobs j) := by
+      intro e; have := ((h.loc j).unsched e).1; rw [hpc] at this; simp at this
+    have hnd : (s.jobs j).state ≠ .done := by
+      intro e; have := ((h.loc j).done_pc e).2.2.1; exact this hpc
+    exact h.putPc j _ _ hact rfl rfl rfl rfl (by simp) (by simp) (fun e => absurd e hnd)
+  · -- codeWait
+    rename_i hpc
+    have hact : act (s.jobs j) := by
+      intro e; have := ((h.loc j).unsched e).1; rw [hpc] at this; simp at this
+    obtain ⟨h1, t1⟩ := h.releaseAll j (s.jobs j).held s
+    generalize s.releaseAll j (s.jobs j).held = s1 at h1 t1 ⊢
+    have hpc1 : (s1.jobs j).pc = .codeWait := (t1 j).pc.trans hpc
+    have hact1 : act (s1.jobs j) := (t1 j).act hact
+    have hnd : (s1.jobs j).state ≠ .done := by
+      intro e; have := ((h1.loc j).done_pc e).2.2.2; exact this hpc1
+    generalize hX : (if (s1.jobs j).code = 0 then JS.done else JS.error) = X
+    have hX' : X = .done ∨ X = .error := by rw [← hX]; split <;> simp
+    have hk : JStep (s1.jobs j) { (s1.jobs j) with state := X, pc := .doneHandler } :=
+      ⟨fun e => absurd e hnd, rfl, fun e => by rw [hpc1] at e; simp at e,
+       fun _ => by rcases hX' with e | e <;> simp [e], fun e => by simp at e⟩
+    have h2 : Inv (s1.put j { (s1.jobs j) with state := X, pc := .doneHandler } [] []) := by
+      apply h1.putAct j _ [] [] hact1 _ hk rfl (by simp)
+      apply JLoc'.setState (st := (s1.jobs j).state) _ X hact1
+      · rcases hX' with e | e <;> simp [e]
+      · rcases hX' with e | e <;> simp [e]
+      · intro _; simp
+      · exact (h1.loc j).setPc .doneHandler hact1 (by simp) (by simp) (by simp)
+    obtain ⟨v1, v2, v3, v4⟩ := finish_view (s1.put j { (s1.jobs j) with state := X }) j
+    have v0 := finish_jobs (s1.put j { (s1.jobs j) with state := X }) j
+    have e0 : (s1.put j { (s1.jobs j) with state := X }).jobs j = { (s1.jobs j) with state := X } := upd_same _ _ _
+    have v0' : ((s1.put j { (s1.jobs j) with state := X }).finish j).jobs =
+        upd s1.jobs j { (s1.jobs j) with state := X, pc := .doneHandler } := by
+      rw [v0, e0]; exact upd_upd _ _ _ _
+    refine ⟨?_, ?_⟩
+    · unfold Inv; rw [v0', v1, v2, v3, v4]
+      simpa [Inv, St.put] using h2
+    · rw [v0']; exact t1.then (JTr.updJob hk)
+  · -- doneHandler
+    rename_i hpc
+    have hact : act (s.jobs j) := by
+      intro e; have := ((h.loc j).unsched e).1; rw [hpc] at this; simp at this
+    have hchk : ∀ cb ∈ (s.jobDeps j).map (fun (p : Nat × Nat) => Cb.check p.1 p.2), CbOK s.jobs cb ∧ notStart cb := by
+      intro cb hcb
+      obtain ⟨p, hp, rfl⟩ := List.mem_map.mp hcb
+      exact ⟨h.jdeps j p hp, trivial⟩
+    have hw : ∀ cb ∈ [Cb.waiterRun], CbOK s.jobs cb ∧ notStart cb := by
+      intro cb hcb; simp at hcb; subst hcb; exact ⟨trivial, trivial⟩
+    split
+    · have hX : Inv { s with unfinished := s.unfinished - 1, waiter := .notified, ready := s.ready ++ [.waiterRun] ++ (s.jobDeps j).map (fun (p : Nat × Nat) => Cb.check p.1 p.2) } :=
+        (Inv'.addReady h _ hw).addReady _ hchk
+      exact hX.putPc j _ _ hact rfl rfl rfl rfl (by simp) (by simp) (by simp)
+    · have hX : Inv { s with unfinished := s.unfinished - 1, ready := s.ready ++ (s.jobDeps j).map (fun (p : Nat × Nat) => Cb.check p.1 p.2) } :=
+        Inv'.addReady h _ hchk
+      exact hX.putPc j _ _ hact rfl rfl rfl rfl (by simp) (by simp) (by simp)
+  · exact ⟨h, JTr.refl _⟩
+
+theorem Inv.startJob (fl : Flags) (hfl : fl.readyGuarded = true) {s : St} (h : Inv s) (j : Nat)
+    (hcb : CbOK s.jobs (.start j)) (hns : Cb.start j ∉ s.ready) :
+    Inv (s.startJob fl j) ∧ JTr s.jobs (s.startJob fl j).jobs := by
+  obtain ⟨hst, hpc⟩ := hcb
+  obtain ⟨-, hwait, hl0, hu0⟩ := (h.loc j).unsched hst
+  -- the state after the initialisation (both branches), as one `put` over `s`
+  have stage : ∀ (jbA : Job), jbA.pc = .created → jbA.deps = (s.jobs j).deps → jbA.launches = (s.jobs j).launches →
+      jbA.state ≠ .unscheduled → jbA.state ≠ .done → JLoc jbA →
+      Inv ((s.put j { (s.jobs j) with state := .waiting, event := false, sleeping := false }).put j jbA) ∧
+      JKTr s.jobs ((s.put j { (s.jobs j) with state := .waiting, event := false, sleeping := false }).put j jbA).jobs := by
+    intro jbA e1 e2 e3 e4 e5 hloc
+    have hk : JKeep (s.jobs j) jbA :=
+      ⟨fun e => by rw [hst] at e; simp at e, by rw [e2], fun _ => e4, e1.trans hpc.symm, e3⟩
+    have hI : Inv (s.put j jbA) :=
+      h.put j jbA [] [] hloc hk.step (fun hm => absurd hm hns) (hK_same h j jbA hk.step.base e2) (by simp)
+    have hj : ((s.put j { (s.jobs j) with state := .waiting, event := false, sleeping := false }).put j jbA).jobs =
+        upd s.jobs j jbA := upd_upd _ _ _ _
+    refine ⟨?_, ?_⟩
+    · unfold Inv; rw [hj]
+      simpa [Inv, St.put] using hI
+    · rw [hj]; exact JKTr.updJob hk
+  -- marker and loop head
+  have tail : ∀ s1 : St, Inv s1 → JKTr s.jobs s1.jobs → act (s1.jobs j) →
+      Inv ((if (s1.jobs j).marker then s1.put j { (s1.jobs j) with state := .done } else s1).loopHead j) ∧
+      JTr s.jobs ((if (s1.jobs j).marker then s1.put j { (s1.jobs j) with state := .done } else s1).loopHead j).jobs := by
+    intro s1 h1 t1 hact1
+    have hpc1 : (s1.jobs j).pc = .created := (t1 j).pc.trans hpc
+    split
+    · have hk : JKeep (s1.jobs j) { (s1.jobs j) with state := .done } :=
+        ⟨fun _ => rfl, rfl, fun _ => by simp, rfl, rfl⟩
+      have h2 : Inv (s1.put j { (s1.jobs j) with state := .done }) := by
+        apply h1.putAct j _ [] [] hact1 _ hk.step rfl (by simp)
+        exact (h1.loc j).setState .done hact1 (by simp) (by simp) (fun _ => by rw [hpc1]; simp)
+      have t2 : JKTr s1.jobs (s1.put j { (s1.jobs j) with state := .done }).jobs := JKTr.updJob hk
+      obtain ⟨h3, t3⟩ := h2.loopHead j ((t2 j).act hact1)
+      exact ⟨h3, (t1.trans t2).then t3⟩
+    · obtain ⟨h3, t3⟩ := h1.loopHead j hact1
+      exact ⟨h3, t1.then t3⟩
+  unfold St.startJob
+  simp only
+  split
+  · rename_i hemp
+    have hnil : (s.jobs j).deps = [] := by simpa using hemp
+    obtain ⟨hA, tA⟩ := stage { (s.jobs j) with state := .ready, event := true, sleeping := false } hpc rfl rfl
+      (by simp) (by simp) (by
+        show JLoc' _ _ _ _ _
+        constructor <;> simp [hpc, hnil, hu0, nok])
+    exact tail _ hA tA (by simp [act, St.put, Sched.upd])
+  · obtain ⟨hA, tA⟩ := stage { (s.jobs j) with state := .waiting, event := false, sleeping := false, unsat := (s.jobs j).deps.length } hpc rfl rfl (by simp) (by simp) (by
+        show JLoc' _ _ _ _ _
+        constructor <;> simp [hpc, nok_all_wait hwait])
+    have hactA : act (((s.put j { (s.jobs j) with state := .waiting, event := false, sleeping := false }).put j
+        { (s.jobs j) with state := .waiting, event := false, sleeping := false, unsat := (s.jobs j).deps.length }).jobs j) := by
+      simp [act, St.put, Sched.upd]
+    obtain ⟨hB, tB⟩ := Inv.registerDeps fl hfl j (s.jobs j).deps.length 0 _ hA hactA (by simp [St.put, Sched.upd])
+    exact tail _ hB (tA.trans tB) ((tB j).act hactA)
+
+theorem Inv.of_view {s s' : St} (h : Inv s) (hn : s'.n = s.n) (hj : s'.jobs = s.jobs) (hr : s'.ready = s.ready)
+    (hjd : s'.jobDeps = s.jobDeps) (htd : s'.tokDeps = s.tokDeps) : Inv s' := by
+  unfold Inv; rw [hn, hj, hr, hjd, htd]; exact h
+
+theorem register_view (fl : Flags) (s : St) (j : Nat) :
+    (s.register fl j).n = s.n ∧ (s.register fl j).jobs = s.jobs ∧ (s.register fl j).ready = s.ready ∧
+    (s.register fl j).jobDeps = s.jobDeps ∧ (s.register fl j).tokDeps = s.tokDeps := by
+  unfold St.register
+  simp only
+  split
+  · split
+    · split <;> exact ⟨rfl, rfl, rfl, rfl, rfl⟩
+    · exact ⟨rfl, rfl, rfl, rfl, rfl⟩
+  · exact ⟨rfl, rfl, rfl, rfl, rfl⟩
+
+theorem Inv.runCb (fl : Flags) (hfl : fl.readyGuarded = true) {s : St} (h : Inv s) (cb : Cb)
+    (hcb : CbOK s.jobs cb) (hns : ∀ j, cb = .start j → Cb.start j ∉ s.ready) :
+    Inv (s.runCb fl cb) ∧ JTr s.jobs (s.runCb fl cb).jobs := by
+  cases cb with
+  | register j =>
+    obtain ⟨v1, v2, v3, v4, v5⟩ := register_view fl s j
+    simp only [St.runCb]
+    exact ⟨h.of_view v1 v2 v3 v4 v5, by rw [v2]; exact JTr.refl _⟩
+  | start j => exact h.startJob fl hfl j hcb (hns j rfl)
+  | wake j =>
+    have hact : act (s.jobs j) := hcb
+    simp only [St.runCb]
+    split
+    · rename_i hr
+      exact h.putPc j _ _ hact rfl rfl rfl rfl (by simp) (fun _ => hr) (by simp [hr])
+    · obtain ⟨h1, t1⟩ := h.putSame j { (s.jobs j) with event := false } [] rfl rfl rfl rfl rfl
+      obtain ⟨h2, t2⟩ := h1.loopHead j ((t1 j).act hact)
+      exact ⟨h2, t1.then t2⟩
+  | resume j => exact h.resume fl hfl j
+  | check j d =>
+    obtain ⟨h1, t1⟩ := h.check fl hfl j d hcb.1 hcb.2
+    exact ⟨h1, t1.step⟩
+  | notifyCheck j d =>
+    have hc : Inv (s.check fl j d) ∧ JTr s.jobs (s.check fl j d).jobs := by
+      obtain ⟨h1, t1⟩ := h.check fl hfl j d hcb.1 hcb.2
+      exact ⟨h1, t1.step⟩
+    simp only [St.runCb]
+    split
+    · split
+      · exact hc
+      · exact ⟨h, JTr.refl _⟩
+    · exact hc
+  | waiterRun =>
+    simp only [St.runCb, St.waiterRun]
+    split <;> exact ⟨h, JTr.refl _⟩
+
+theorem Inv.step (fl : Flags) (hfl : fl.readyGuarded = true) {s : St} (h : Inv s) :
+    Inv (s.step fl) ∧ JTr s.jobs (s.step fl).jobs := by
+  unfold St.step
+  split
+  · exact ⟨h, JTr.refl _⟩
+  · rename_i cb rest hr
+    have h' : Inv' s.n s.jobs (cb :: rest) s.jobDeps s.tokDeps := by rw [← hr]; exact h
+    obtain ⟨h1, hcb, hns⟩ := h'.tail
+    exact Inv.runCb fl hfl (s := { s with ready := rest }) h1 cb hcb hns
+
+/-! ### `n` is changed by `submit` only -/
+
+@[simp] theorem put_n (s : St) (j : Nat) (jb : Job) (cbs : List Cb) (ths : List (TK × Nat)) :
+    (s.put j jb cbs ths).n = s.n := rfl
+@[simp] theorem check_n (fl : Flags) (s : St) (j d : Nat) : (s.check fl j d).n = s.n := rfl
+@[simp] theorem finish_n (s : St) (j : Nat) : (s.finish j).n = s.n := (finish_view s j).1
+@[simp] theorem loopHead_n (s : St) (j : Nat) : (s.loopHead j).n = s.n := by
+  unfold St.loopHead; simp only
+  split
+  · simp
+  · split
+    · split <;> rfl
+    · rfl
+@[simp] theorem registerDeps_n (fl : Flags) (j : Nat) : ∀ (k d : Nat) (s : St), (St.registerDeps fl s j k d).n = s.n := by
+  intro k
+  induction k with
+  | zero => intro d s; rfl
+  | succ k ih =>
+    intro d s
+    simp only [St.registerDeps, ih, check_n]
+    split <;> rfl
+@[simp] theorem startJob_n (fl : Flags) (s : St) (j : Nat) : (s.startJob fl j).n = s.n := by
+  unfold St.startJob; simp only [loopHead_n]
+  split <;> split <;> simp
+@[simp] theorem releaseAll_n (j : Nat) : ∀ (ds : List Nat) (s : St), (s.releaseAll j ds).n = s.n := by
+  intro ds
+  induction ds with
+  | nil => intro s; rfl
+  | cons d ds ih =>
+    intro s
+    simp only [St.releaseAll, ih]
+    split <;> rfl
+@[simp] theorem acquireAll_n (j : Nat) : ∀ (k d : Nat) (s : St), (s.acquireAll j k d).1.n = s.n := by
+  intro k
+  induction k with
+  | zero => intro d s; rfl
+  | succ k ih =>
+    intro d s
+    simp only [St.acquireAll]
+    split
+    · rw [ih]; rfl
+    · split
+      · rfl
+      · rw [ih]; rfl
+@[simp] theorem resume_n (fl : Flags) (s : St) (j : Nat) : (s.resume fl j).n = s.n := by
+  simp only [St.resume]
+  split
+  · have := acquireAll_n j (s.jobs j).deps.length 0 s
+    rcases hacq : s.acquireAll j (s.jobs j).deps.length 0 with ⟨s1, r⟩
+    rw [hacq] at this
+    cases r <;> simpa using this
+  · simp
+  · rfl
+  · simp
+  · split <;> rfl
+  · rfl
+@[simp] theorem runCb_n (fl : Flags) (s : St) (cb : Cb) : (s.runCb fl cb).n = s.n := by
+  cases cb with
+  | register j => exact (register_view fl s j).1
+  | start j => simp [St.runCb]
+  | wake j => simp only [St.runCb]; split <;> simp
+  | resume j => simp [St.runCb]
+  | check j d => rfl
+  | notifyCheck j d =>
+    simp only [St.runCb]
+    split
+    · split <;> rfl
+    · rfl
+  | waiterRun => simp only [St.runCb, St.waiterRun]; split <;> rfl
+@[simp] theorem step_n (fl : Flags) (s : St) : (s.step fl).n = s.n := by
+  unfold St.step; split
+  · rfl
+  · simp
+@[simp] theorem steps_n (fl : Flags) : ∀ (k : Nat) (s : St), (St.steps fl s k).n = s.n := by
+  intro k
+  induction k with
+  | zero => intro s; rfl
+  | succ k ih => intro s; simp only [St.steps, ih, step_n]
+
+/-! ### any number of callbacks -/
+
+/-- relation between the job table of a state and that of a later state. -/
+structure Tr (jobs jobs' : Nat → Job) : Prop where
+  done : ∀ o, (jobs o).state = .done → (jobs' o).state = .done
+  origins : ∀ j, (jobs' j).deps.map (·.origin) = (jobs j).deps.map (·.origin)
+  pcnone : ∀ j, (jobs j).pc = .none → (jobs' j).pc = .none
+  launch : ∀ j, (jobs' j).launches > (jobs j).launches →
+    ∀ d ∈ (jobs j).deps, ∀ o, d.origin = .job o → (jobs' o).state = .done
+
+theorem Tr.refl (jobs : Nat → Job) : Tr jobs jobs :=
+  ⟨fun _ h => h, fun _ => rfl, fun _ h => h, fun _ h => absurd h (Nat.lt_irrefl _)⟩
+
+/-- a job about to be launched (`pc = lockEnter`) has all its job dependencies `done`. -/
+theorem Inv'.lockEnter_done {n jobs ready jd td} (h : Inv' n jobs ready jd td) {j : Nat}
+    (hpc : (jobs j).pc = .lockEnter) : ∀ d ∈ (jobs j).deps, ∀ o, d.origin = .job o → (jobs o).state = .done :=
+  fun d hd o ho => h.okdone j d hd o ho ((h.loc j).ready_ok (Or.inr hpc) d hd o ho)
+
+theorem Tr.of_step {n jobs ready jd td} (h : Inv' n jobs ready jd td) {jobs' : Nat → Job} (t : JTr jobs jobs') :
+    Tr jobs jobs' :=
+  ⟨fun o => (t o).done, fun j => (t j).origins, fun j => (t j).pcnone,
+   fun j hl d hd o ho => (t o).done (h.lockEnter_done ((t j).launch hl) d hd o ho)⟩
+
+theorem Tr.trans {a b c : Nat → Job} (h1 : Tr a b) (h2 : Tr b c) : Tr a c := by
+  refine ⟨fun o h => h2.done o (h1.done o h), fun j => (h2.origins j).trans (h1.origins j),
+    fun j h => h2.pcnone j (h1.pcnone j h), ?_⟩
+  intro j hl d hd o ho
+  by_cases hc : (b j).launches > (a j).launches
+  · exact h2.done o (h1.launch j hc d hd o ho)
+  · have hl2 : (c j).launches > (b j).launches := by omega
+    have hm : Origin.job o ∈ (a j).deps.map (·.origin) := List.mem_map.mpr ⟨d, hd, ho⟩
+    rw [← h1.origins j] at hm
+    obtain ⟨d', hd', ho'⟩ := List.mem_map.mp hm
+    exact h2.launch j hl2 d' hd' o ho'
+
+theorem Inv.steps (fl : Flags) (hfl : fl.readyGuarded = true) : ∀ (k : Nat) {s : St}, Inv s →
+    Inv (St.steps fl s k) ∧ Tr s.jobs (St.steps fl s k).jobs := by
+  intro k
+  induction k with
+  | zero => intro s h; exact ⟨h, Tr.refl _⟩
+  | succ k ih =>
+    intro s h
+    obtain ⟨h1, t1⟩ := h.step fl hfl
+    obtain ⟨h2, t2⟩ := ih h1
+    exact ⟨h2, (Tr.of_step h t1).trans t2⟩
+
+/-! ### events -/
+
+theorem Inv'.submitFresh {n jobs ready jd td} (h : Inv' n jobs ready jd td) (fresh : Job)
+    (hpc : fresh.pc = .none) (hst : fresh.state = .unscheduled) (hw : ∀ d ∈ fresh.deps, d.cur = .wait)
+    (hl : fresh.launches = 0) (hu : fresh.unsat = 0) :
+    Inv' (n + 1) (upd jobs n fresh) ready jd td := by
+  have hpn : (jobs n).pc = .none := h.fresh n (Nat.le_refl _)
+  have hsn : (jobs n).state = .unscheduled := (h.loc n).none_unsched hpn
+  have hna : ¬ act (jobs n) := fun e => e hsn
+  have hp : ∀ p, PairOK jobs p → PairOK (upd jobs n fresh) p := by
+    intro p hp
+    have hne : p.1 ≠ n := fun e => hna (e ▸ hp.1)
+    simp only [PairOK, Sched.upd, hne, if_false]; exact hp
+  refine ⟨?_, ?_, ?_, ?_, h.starts, fun o p hm => hp p (h.jdeps o p hm), fun o p hm => hp p (h.tdeps o p hm)⟩
+  · intro i; unfold Sched.upd; split
+    · constructor <;> simp [hpc, hst, hl, hu]; exact hw
+    · exact h.loc i
+  · intro i hi
+    have : i ≠ n := by omega
+    simp only [Sched.upd, this, if_false]; exact h.fresh i (by omega)
+  · intro i d hd o ho hc
+    by_cases e : i = n
+    · subst e; simp only [Sched.upd, if_true] at hd; rw [hw d hd] at hc; simp at hc
+    · simp only [Sched.upd, e, if_false] at hd
+      have := h.okdone i d hd o ho hc
+      have hne : o ≠ n := by intro e; subst e; rw [hsn] at this; simp at this
+      simp only [Sched.upd, hne, if_false]; exact this
+  · intro cb hcb
+    have := h.cbs cb hcb
+    cases cb with
+    | check i d => exact hp (i, d) this
+    | notifyCheck i d => exact hp (i, d) this
+    | wake i =>
+      have hne : i ≠ n := fun e => hna (e ▸ this)
+      simp only [CbOK, Sched.upd, hne, if_false]; exact this
+    | start i =>
+      have hne : i ≠ n := by intro e; subst e; have := this.2; rw [hpn] at this; simp at this
+      simp only [CbOK, Sched.upd, hne, if_false]; exact this
+    | _ => trivial
+
+theorem Inv'.addStart {n jobs ready jd td} (h : Inv' n jobs ready jd td) (j : Nat)
+    (hcb : CbOK jobs (.start j)) (hns : Cb.start j ∉ ready) : Inv' n jobs (ready ++ [.start j]) jd td := by
+  refine ⟨h.loc, h.fresh, h.okdone, ?_, ?_, h.jdeps, h.tdeps⟩
+  · intro cb hm
+    rcases List.mem_append.mp hm with hm | hm
+    · exact h.cbs cb hm
+    · simp at hm; subst hm; exact hcb
+  · intro i
+    rw [List.count_append]
+    by_cases e : i = j
+    · subst e
+      have : List.count (Cb.start i) ready = 0 := List.count_eq_zero.mpr hns
+      simp [this]
+    · have : List.count (Cb.start i) [Cb.start j] = 0 := by
+        apply List.count_eq_zero.mpr; simp; exact e
+      have := h.starts i
+      omega
+
+/-- relation between the states before and after one event. -/
+structure ATr (s s' : St) : Prop where
+  done : ∀ o, (s.jobs o).state = .done → (s'.jobs o).state = .done
+  launch : ∀ j, (s'.jobs j).launches > (s.jobs j).launches →
+    ∀ d ∈ (s.jobs j).deps, ∀ o, d.origin = .job o → (s'.jobs o).state = .done
+
+theorem ATr.of_eq {s s' : St} (h : s'.jobs = s.jobs) : ATr s s' :=
+  ⟨fun o e => by rw [h]; exact e, fun j e => by rw [h] at e; exact absurd e (Nat.lt_irrefl _)⟩
+
+theorem Inv.apply (fl : Flags) (hfl : fl.readyGuarded = true) {s : St} (h : Inv s) (ev : Ev) :
+    Inv (s.apply fl ev) ∧ ATr s (s.apply fl ev) := by
+  cases ev with
+  | step =>
+    obtain ⟨h1, t1⟩ := h.step fl hfl
+    have t := Tr.of_step h t1
+    exact ⟨h1, ⟨t.done, t.launch⟩⟩
+  | wait =>
+    refine ⟨?_, ATr.of_eq rfl⟩
+    apply Inv'.addReady h
+    intro cb hcb; simp at hcb; subst hcb; exact ⟨trivial, trivial⟩
+  | deliver k =>
+    simp only [St.apply]
+    split
+    · refine ⟨?_, ATr.of_eq rfl⟩
+      apply Inv'.addReady h
+      intro cb hcb; simp at hcb; subst hcb; exact ⟨trivial, trivial⟩
+    · exact ⟨h, ATr.of_eq rfl⟩
+  | submit ident deps code marker =>
+    simp only [St.apply]
+    generalize hfr : ({ ident := ident, deps := deps.map (fun o => match o with
+      | .job d => { origin := .job (s.eff d) : Dep }
+      | o => { origin := o }), code := code, marker := marker } : Job) = fresh
+    have hfw : ∀ d ∈ fresh.deps, d.cur = .wait := by
+      subst hfr; intro d hd
+      obtain ⟨o, _, rfl⟩ := List.mem_map.mp hd
+      cases o <;> rfl
+    have hf1 : fresh.pc = .none := by subst hfr; rfl
+    have hf2 : fresh.state = .unscheduled := by subst hfr; rfl
+    have hf3 : fresh.launches = 0 := by subst hfr; rfl
+    have hf4 : fresh.unsat = 0 := by subst hfr; rfl
+    have h0 : Inv' (s.n + 1) (upd s.jobs s.n fresh) s.ready s.jobDeps s.tokDeps :=
+      Inv'.submitFresh h fresh hf1 hf2 hfw hf3 hf4
+    have h1 : Inv { s with n := s.n + 1, jobs := upd s.jobs s.n fresh, regResult := none,
+                           ready := s.ready ++ [.register s.n] } := by
+      apply Inv'.addReady h0
+      intro cb hcb; simp at hcb; subst hcb; exact ⟨trivial, trivial⟩
+    obtain ⟨h2, t2⟩ := Inv.steps fl hfl (s.ready.length + 1) h1
+    have hn2 := steps_n fl (s.ready.length + 1) { s with n := s.n + 1, jobs := upd s.jobs s.n fresh, regResult := none, ready := s.ready ++ [.register s.n] }
+    generalize St.steps fl { s with n := s.n + 1, jobs := upd s.jobs s.n fresh, regResult := none, ready := s.ready ++ [.register s.n] } (s.ready.length + 1) = s2 at h2 t2 hn2
+    simp only at t2 hn2
+    have hpn : (s.jobs s.n).pc = .none := h.fresh s.n (Nat.le_refl _)
+    have hsn : (s.jobs s.n).state = .unscheduled := (h.loc s.n).none_unsched hpn
+    have hp2 : (s2.jobs s.n).pc = .none := t2.pcnone s.n (by rw [upd_same]; exact hf1)
+    have hs2 : (s2.jobs s.n).state = .unscheduled := (h2.loc s.n).none_unsched hp2
+    have hl2 : (s2.jobs s.n).launches = 0 := ((h2.loc s.n).unsched hs2).2.2.1
+    have hne : ∀ i, i ≠ s.n → upd s.jobs s.n fresh i = s.jobs i := by
+      intro i hi; simp [Sched.upd, hi]
+    -- the event relation, for any final table that agrees with `s2` on `state` and `launches`
+    have hat : ∀ s' : St, (∀ i, (s'.jobs i).state = (s2.jobs i).state ∧ (s'.jobs i).launches = (s2.jobs i).launches) →
+        ATr s s' := by
+      intro s' hag
+      refine ⟨?_, ?_⟩
+      · intro o ho
+        have hno : o ≠ s.n := by intro e; subst e; rw [hsn] at ho; simp at ho
+        rw [(hag o).1]; apply t2.done; rw [hne o hno]; exact ho
+      · intro i hl d hd o ho
+        rw [(hag i).2] at hl
+        by_cases e : i = s.n
+        · subst e; omega
+        · rw [(hag o).1]
+          apply t2.launch i (by rw [hne i e]; exact hl) d (by rw [hne i e]; exact hd) o ho
+    split
+    · exact ⟨h2, hat _ (fun i => ⟨rfl, rfl⟩)⟩
+    · refine ⟨?_, hat _ ?_⟩
+      · have hns : Cb.start s.n ∉ s2.ready := by
+          intro hm; have := (h2.cbs _ hm).2; rw [hp2] at this; simp at this
+        have hb : JBase (s2.jobs s.n) { (s2.jobs s.n) with pc := .created } := ⟨fun e => e, rfl, fun e => e⟩
+        have h3 := Inv'.updJob h2 s.n { (s2.jobs s.n) with pc := .created }
+          (by
+            show JLoc' _ _ _ _ _
+            obtain ⟨-, a, b, c⟩ := (h2.loc s.n).unsched hs2
+            constructor <;> simp [hs2, b, c]; exact a)
+          hb (fun hle => by omega) (fun _ => ⟨hs2, rfl⟩) (hK_same h2 s.n _ hb rfl)
+        exact h3.addStart s.n ⟨by rw [upd_same]; exact hs2, by rw [upd_same]⟩ hns
+      · intro i
+        simp only [St.put, Sched.upd]
+        split
+        · rename_i e; subst e; exact ⟨rfl, rfl⟩
+        · exact ⟨rfl, rfl⟩
 
 end XpmVerif.SchedDeps
